@@ -203,6 +203,8 @@ struct Frame {
     /// type of the value carried by `break` (Unit when none)
     val_ty: Ty,
     valued: bool,
+    /// Lean text of the exit type ε *inside* this frame
+    eps: String,
 }
 
 pub struct Out {
@@ -245,7 +247,13 @@ pub struct Tr<'a> {
     generics: Vec<String>,
     const_generics: Vec<String>,
     uses_fuel: bool,
-    used_adts: Vec<String>,
+    fuel_uses: usize,
+    /// loop bodies hoisted into their own definitions (emitted before the function)
+    hoisted: Vec<String>,
+    loop_count: usize,
+    lean_name: String,
+    /// text of β per hoisted loop (referenced by the `beta` placeholder)
+    betas: Vec<String>,
 }
 
 fn ind(lines: Vec<String>, n: usize) -> Vec<String> {
@@ -421,8 +429,13 @@ impl<'a> Tr<'a> {
             let q = rest[p..].find(PH_R).ok_or("unterminated placeholder")? + p;
             let body = &rest[p + PH_L.len_utf8()..q];
             let (kind, ids) = body.split_once(':').unwrap();
-            let tys: Vec<Ty> = ids.split(',').filter(|s| !s.is_empty()).map(|s| self.holes[s.parse::<usize>().unwrap()].clone()).collect();
-            out.push_str(&self.resolve_one(kind, &tys)?);
+            let tys: Vec<Ty> = if kind == "beta" { Vec::new() } else { ids.split(',').filter(|s| !s.is_empty()).map(|s| self.holes[s.parse::<usize>().unwrap()].clone()).collect() };
+            if kind == "beta" {
+                let id: usize = ids.parse().unwrap();
+                out.push_str(&self.resolve_placeholders(&self.betas[id])?);
+            } else {
+                out.push_str(&self.resolve_one(kind, &tys)?);
+            }
             rest = &rest[q + PH_R.len_utf8()..];
         }
         out.push_str(rest);
